@@ -990,3 +990,139 @@ Proof.
   replace (negb ((0 <=? py_sum ws) && (py_sum ws <=? s * 8))) with true; [reflexivity|].
   destruct (py_sum ws <=? s * 8) eqn:E; [lia|]. rewrite andb_false_r. reflexivity.
 Qed.
+Lemma pack_unpack_too_small_l : forall fuel ws vs b boolean s reverse, bytes_ok b = true -> 8 * s < py_sum ws ->
+  packify fuel ws vs (Some s) reverse = Err ValueError /\
+  unpackify fuel ws b boolean (Some s) reverse = Err ValueError.
+Proof. intros. split; [apply packify_too_small_l | apply unpackify_too_small_l]; assumption. Qed.
+(* ---- unhexify / unhexize on arbitrary text ---- *)
+Lemma filter_filter : forall A (P Q : A -> bool) l, filter P (filter Q l) = filter (fun x => Q x && P x) l.
+Proof.
+  induction l as [|x l IH]; [reflexivity|]. cbn [filter]. destruct (Q x); cbn [filter andb]; rewrite IH; reflexivity.
+Qed.
+Lemma py_memZ_cons : forall x c hh, py_memZ x (c :: hh) = (x =? c) || py_memZ x hh.
+Proof. reflexivity. Qed.
+Lemma strip_loop : forall hh h,
+  fold_left (fun h c => if negb (py_memZ c py_hexdigits) then py_remove_char c h else h) hh h =
+  filter (fun x => is_hexdigit x || negb (py_memZ x hh)) h.
+Proof.
+  induction hh as [|c hh IH]; intros h.
+  - cbn [fold_left]. symmetry. rewrite <- (filter_ext (fun _ => true)).
+    + induction h; [reflexivity|]. cbn. f_equal. assumption.
+    + intros. cbn. rewrite orb_true_r. reflexivity.
+  - cbn [fold_left]. rewrite IH. destruct (py_memZ c py_hexdigits) eqn:E; cbn [negb].
+    + apply filter_ext_in. intros x _. rewrite py_memZ_cons.
+      destruct (Z.eqb_spec x c) as [->|]; [|reflexivity]. unfold is_hexdigit. rewrite E. reflexivity.
+    + unfold py_remove_char. rewrite filter_filter. apply filter_ext_in. intros x _.
+      rewrite py_memZ_cons.
+      destruct (Z.eqb_spec x c) as [->|]; cbn [negb andb orb]; [|reflexivity].
+      unfold is_hexdigit. rewrite E. reflexivity.
+Qed.
+Lemma strip_self : forall h,
+  fold_left (fun h c => if negb (py_memZ c py_hexdigits) then py_remove_char c h else h) h h = filter is_hexdigit h.
+Proof.
+  intros. rewrite strip_loop. apply filter_ext_in. intros x Hx.
+  assert (py_memZ x h = true) as ->.
+  { unfold py_memZ. apply existsb_exists. exists x. split; [assumption|apply Z.eqb_refl]. }
+  apply orb_false_r.
+Qed.
+Lemma even_len_mod : forall A (l : list A), py_truthZ (py_len l mod 2) = negb (Nat.even (length l)).
+Proof.
+  intros. unfold py_truthZ, py_len.
+  destruct (Nat.even (length l)) eqn:E.
+  - apply Nat.even_spec in E. destruct E as [k ->]. replace (Z.of_nat (2 * k) mod 2) with 0 by lia. reflexivity.
+  - apply (f_equal negb) in E. rewrite Nat.negb_even in E. apply Nat.odd_spec in E. destruct E as [k ->].
+    replace (Z.of_nat (2 * k + 1) mod 2) with 1 by lia. reflexivity.
+Qed.
+
+Lemma hexdigit_char : forall c, is_hexdigit c = true -> exists d, hexval c = Some d /\ 0 <= d < 16.
+Proof.
+  intros c H. unfold is_hexdigit, py_memZ in H. apply existsb_exists in H. destruct H as [x [Hin Heq]].
+  apply Z.eqb_eq in Heq. subst x. unfold py_hexdigits in Hin. cbn [In] in Hin.
+  repeat (destruct Hin as [<- | Hin]; [eexists; split; [reflexivity|lia]|]). destruct Hin.
+Qed.
+
+Lemma unpair_of_even : forall k h, length h = (2 * k)%nat -> exists ps, h = unpair ps.
+Proof.
+  induction k; intros h Hl.
+  - destruct h; [|discriminate]. exists []. reflexivity.
+  - destruct h as [|c1 [|c2 h]]; try (cbn in Hl; lia). destruct (IHk h) as [ps ->]; [cbn in Hl; lia|].
+    exists ((c1, c2) :: ps). reflexivity.
+Qed.
+Lemma decode_unpair : forall ps, decode_pairs (unpair ps) = map (fun p => hexval0 (fst p) * 16 + hexval0 (snd p)) ps.
+Proof. induction ps as [|[a b] ps IH]; [reflexivity|]. unfold unpair in *. cbn [flat_map app decode_pairs map fst snd]. rewrite IH. reflexivity. Qed.
+Lemma unpair_app : forall a b, unpair (a ++ b) = unpair a ++ unpair b.
+Proof. intros. unfold unpair. apply flat_map_app. Qed.
+Lemma unpair_length : forall ps, length (unpair ps) = (2 * length ps)%nat.
+Proof. induction ps; [reflexivity|]. unfold unpair in *. cbn [flat_map app length]. rewrite IHps. lia. Qed.
+
+Section PairLoop.
+Variable ps : list (Z * Z).
+Variable F : list Z -> Z -> res (list Z).
+Hypothesis HF : forall pre p rest acc, ps = pre ++ p :: rest ->
+  F acc (2 * Z.of_nat (length pre)) = Ok (acc ++ [hexval0 (fst p) * 16 + hexval0 (snd p)]).
+Lemma pair_loop : forall rest pre acc, ps = pre ++ rest ->
+  for_res (map (fun i => 2 * Z.of_nat i) (seq (length pre) (length rest))) acc F =
+  Ok (acc ++ map (fun p => hexval0 (fst p) * 16 + hexval0 (snd p)) rest).
+Proof.
+  induction rest as [|p rest IH]; intros pre acc Hb.
+  - cbn. rewrite app_nil_r. reflexivity.
+  - cbn [length seq map for_res]. rewrite (HF pre p rest acc Hb). cbn [bind].
+    replace (S (length pre)) with (length (pre ++ [p])) by (rewrite app_length; cbn; lia).
+    rewrite (IH (pre ++ [p])); [rewrite <- app_assoc; reflexivity|]. rewrite <- app_assoc. exact Hb.
+Qed.
+End PairLoop.
+
+Lemma slice_unpair : forall pre p rest,
+  py_slice (unpair (pre ++ p :: rest)) (2 * Z.of_nat (length pre)) (2 * Z.of_nat (length pre) + 2) = [fst p; snd p].
+Proof.
+  intros. rewrite unpair_app. change (p :: rest) with ([p] ++ rest). rewrite unpair_app.
+  replace (2 * Z.of_nat (length pre)) with (py_len (unpair pre)) by (unfold py_len; rewrite unpair_length; lia).
+  change 2 with (py_len (unpair [p])). apply py_slice_mid.
+Qed.
+Lemma int_hex_pair : forall c1 c2, is_hexdigit c1 = true -> is_hexdigit c2 = true ->
+  py_int_hex [c1; c2] = Ok (hexval0 c1 * 16 + hexval0 c2) /\ is_byte (hexval0 c1 * 16 + hexval0 c2) = true.
+Proof.
+  intros c1 c2 H1 H2. destruct (hexdigit_char c1 H1) as [d1 [E1 Hd1]]. destruct (hexdigit_char c2 H2) as [d2 [E2 Hd2]].
+  unfold py_int_hex, hexval0. cbn [fold_left bind]. rewrite E1. cbn [bind]. rewrite E2. split; [f_equal; lia|].
+  unfold is_byte. destruct (0 <=? d1 * 16 + d2) eqn:A; destruct (d1 * 16 + d2 <? 256) eqn:B; try lia; reflexivity.
+Qed.
+
+Lemma clean_hex_props : forall h, exists ps, clean_hex h = unpair ps /\ forallb is_hexdigit (clean_hex h) = true.
+Proof.
+  intros h. unfold clean_hex. set (f := filter is_hexdigit h).
+  assert (Hf: forallb is_hexdigit f = true).
+  { apply forallb_forall. intros x Hx. apply filter_In in Hx. apply Hx. }
+  destruct (Nat.even (length f)) eqn:E.
+  - apply Nat.even_spec in E. destruct E as [k Hk]. destruct (unpair_of_even k f Hk) as [ps Hps].
+    exists ps. split; assumption.
+  - apply (f_equal negb) in E. rewrite Nat.negb_even in E. apply Nat.odd_spec in E. destruct E as [k Hk].
+    destruct (unpair_of_even (S k) (48 :: f)) as [ps Hps]; [cbn [length]; lia|].
+    exists ps. split; [assumption|]. cbn [forallb]. rewrite Hf. reflexivity.
+Qed.
+
+Lemma unhex_general_l : forall h,
+  unhexify h = Ok (decode_pairs (clean_hex h)) /\ unhexize h = Ok (decode_pairs (clean_hex h)).
+Proof.
+  intros h. destruct (clean_hex_props h) as [ps [Hps Hall]].
+  assert (Hclean: (if py_truthZ (py_len (filter is_hexdigit h) mod 2) then [48] ++ filter is_hexdigit h
+                   else filter is_hexdigit h) = clean_hex h).
+  { rewrite even_len_mod. unfold clean_hex. destruct (Nat.even (length (filter is_hexdigit h))); reflexivity. }
+  assert (Hchars: forall pre p rest, ps = pre ++ p :: rest -> is_hexdigit (fst p) = true /\ is_hexdigit (snd p) = true).
+  { intros pre p rest E. rewrite Hps, E, unpair_app in Hall. rewrite forallb_app in Hall.
+    apply andb_prop in Hall. destruct Hall as [_ Hall]. unfold unpair in Hall. cbn [flat_map app forallb] in Hall.
+    apply andb_prop in Hall. destruct Hall as [A Hall]. apply andb_prop in Hall. destruct Hall as [B _]. split; assumption. }
+  assert (Hlen: py_len (unpair ps) = 2 * Z.of_nat (length ps)) by (unfold py_len; rewrite unpair_length; lia).
+  split.
+  - unfold unhexify. rewrite strip_self. cbv zeta. rewrite Hclean, Hps, Hlen, py_range_up2.
+    rewrite (pair_loop ps) with (pre := []) (rest := ps); [ | | reflexivity].
+    + cbn [bind app]. rewrite decode_unpair. reflexivity.
+    + intros pre p rest acc E. cbv beta zeta. rewrite E, slice_unpair.
+      destruct (Hchars pre p rest E) as [A B]. destruct (int_hex_pair _ _ A B) as [-> Hbyte]. cbn [bind].
+      unfold py_ba_append. rewrite Hbyte. reflexivity.
+  - unfold unhexize. rewrite strip_self. cbv zeta. rewrite Hclean, Hps, Hlen, py_range_up2.
+    rewrite (pair_loop ps) with (pre := []) (rest := ps); [ | | reflexivity].
+    + cbn [bind app]. rewrite decode_unpair. reflexivity.
+    + intros pre p rest acc E. cbv beta zeta. rewrite E, slice_unpair.
+      destruct (Hchars pre p rest E) as [A B]. destruct (int_hex_pair _ _ A B) as [-> Hbyte]. cbn [bind].
+      unfold py_pack_B. rewrite Hbyte. reflexivity.
+Qed.
